@@ -32,7 +32,7 @@ from .. import core, par
 MANIFEST = dict(
     text="Proof (partial): Lean theorems json_roundtrip (to_json then JSONSheetReader is the identity on rectangular sheets with distinct headers and at least one row), xlsx_sanitize_id / xlsx_sanitize_grid (XLSXSheetReader._sanitize is the identity on what openpyxl delivers for rectangular text sheets with non-empty headers and no all-empty row), sanitize_idem (for every grid), csv_read_id (tablib's CSV record loop), formats_agree / c14_partial (the three readers deliver the same sheet, relative to the byte formats being faithful) and convert_then_read / convert_then_compile (convert followed by compilation = compiling the source, for any compiler that is a function of the sheets), each hypothesis shown necessary by a kernel-checked witness that is replayed on the real code. The quantifier over cell contents and the byte formats (csv / openpyxl / tablib / json) is carried by the harness: generated workbooks (1-6 sheets, 1-15 rows, unique non-empty headers, empty cells, commas, quotes, newlines, | ; \\, leading = and ', numeric- and boolean-looking text, leading/trailing blanks, non-ASCII and astral characters) are written as CSV folder, XLSX and JSON (real convert_to_json from both), read back by the real readers and compared cell by cell with what was written and with the model; compilable workbooks are compiled by the real create_flows from every format and compared up to invented UUIDs.",
     ref="§5 C14",
-    note="PARTIAL: the byte formats are library code (Python csv, openpyxl, tablib import/export, json) and are exercised, not modelled; the repo's own post-processing is modelled and proved. Trusts: Lean kernel (axioms audited each run), harness writers (csv.writer / openpyxl text cells) and Driver JSON codec. Known findings: F-C14-a (all-empty row kept by CSV/JSON, dropped by XLSX: a compile differs), F-C14-b (header-only sheet loses its headers through convert: JSON compile crashes), F-C14-c (CSV reader turns CR / CRLF inside a cell into LF: file opened without newline='').",
+    note="PARTIAL: the byte formats are library code (Python csv, openpyxl, tablib import/export, json) and are exercised, not modelled; the repo's own post-processing is modelled and proved. Trusts: Lean kernel (axioms audited each run), harness writers (csv.writer / openpyxl text cells) and Driver JSON codec. Known findings: F-C14-a (all-empty row kept by CSV/JSON, dropped by XLSX: a compile differs), F-C14-b (header-only sheet loses its headers through convert: JSON compile crashes). (F-C14-c, CR/CRLF in CSV cells, was fixed in /repo.)",
     technique="Lean 4 proof of the readers' post-processing (induction over the row loops) + generated three-format differential run on the real readers and compiler",
 )
 
